@@ -30,7 +30,23 @@ use bytes::Bytes;
 use serde::{Deserialize, Serialize};
 use vh::*;
 
-const CHUNK_SIZE: usize = 16_384; // only used to *compute* grants for the model run (Gen.Consts on the Coq side)
+/// `CHUNK_SIZE` of h2/dispatcher.rs; only used to *compute* the grants of "full"-pattern cases and
+/// to bound generated bodies. Read from the source tree under test (like Gen.Consts on the Coq
+/// side), so that a retuned constant does not desynchronise the correspondence.
+fn chunk_size() -> usize {
+    static CS: std::sync::OnceLock<usize> = std::sync::OnceLock::new();
+    *CS.get_or_init(|| {
+        let repo = std::env::var("VERIF_REPO").unwrap_or_else(|_| "/repo".into());
+        std::fs::read_to_string(format!("{repo}/actix-http/src/h2/dispatcher.rs"))
+            .ok()
+            .and_then(|t| {
+                let i = t.find("const CHUNK_SIZE: usize = ")? + "const CHUNK_SIZE: usize = ".len();
+                let j = i + t[i..].find(';')?;
+                t[i..j].replace('_', "").trim().parse().ok()
+            })
+            .unwrap_or(16_384)
+    })
+}
 const FORBIDDEN: &[&str] = &["connection", "transfer-encoding", "upgrade", "keep-alive", "proxy-connection"];
 
 #[derive(Serialize, Deserialize, Clone, Debug, PartialEq)]
@@ -73,12 +89,15 @@ fn chunk_bytes(len: usize, fill: u8) -> Vec<u8> {
     (0..len).map(|i| ((fill as usize + i) % 251) as u8).collect()
 }
 
-fn digest(b: &[u8]) -> u64 {
-    let mut h: u64 = 7;
+/// position-sensitive checksum (Fletcher-style running sums, no reduction: a body of 2^17 bytes
+/// stays far below 2^64); cheap to evaluate inside Coq
+fn digest(b: &[u8]) -> (u64, u64) {
+    let (mut s1, mut s2) = (0u64, 0u64);
     for x in b {
-        h = (h * 31 + *x as u64 + 1) % 4_294_967_291;
+        s1 += *x as u64 + 1;
+        s2 += s1;
     }
-    h
+    (s1, s2)
 }
 
 // ------------------------------------------------------------------ scripted body
@@ -206,7 +225,13 @@ async fn drive(i: usize, mut sr: h2::client::SendRequest<Bytes>, st: St, case: R
                 return;
             }
             Some(Err(e)) => {
-                obs.borrow_mut()[i].end = End::ServerReset(format!("{e}"));
+                let mut o = obs.borrow_mut();
+                o[i].end = End::ServerReset(format!("{e}"));
+                // `is_end_stream()` also answers true for a stream that was reset right behind its
+                // head; END_STREAM on the head would have ended the stream normally
+                if let Some(h) = o[i].head.as_mut() {
+                    h.eos = false;
+                }
                 return;
             }
             Some(Ok(b)) => {
@@ -422,7 +447,7 @@ fn computed_grants(case: &Case, st: &St) -> Vec<usize> {
                     if avail == 0 {
                         avail = w;
                     }
-                    let cap = r.min(CHUNK_SIZE).min(avail);
+                    let cap = r.min(chunk_size()).min(avail);
                     g.push(cap);
                     r -= cap;
                     avail -= cap;
@@ -518,7 +543,8 @@ fn v_stream(st: &St, o: &Obs) -> V {
             head,
             V::L(o.frames.iter().map(|n| V::us(*n)).collect()),
             V::us(o.data.len()),
-            V::n(digest(&o.data)),
+            V::n(digest(&o.data).0),
+            V::n(digest(&o.data).1),
             V::h(&o.data[..o.data.len().min(16)]),
             V::t0(end),
         ],
@@ -527,8 +553,9 @@ fn v_stream(st: &St, o: &Obs) -> V {
 
 // ------------------------------------------------------------------ generator
 fn gen_stream(rng: &mut Rng, w: usize, malformed: bool, small: bool, single: bool) -> St {
-    let sizes = [0usize, 1, w.saturating_sub(1), w, w + 1, 2 * w, 2, 3, CHUNK_SIZE - 1, CHUNK_SIZE, CHUNK_SIZE + 1];
-    let cap = if small { 600 } else { 140_000 };
+    let sizes = [0usize, 1, w.saturating_sub(1), w, w + 1, 2 * w, 2, 3, chunk_size() - 1, chunk_size(), chunk_size() + 1];
+    // most bodies stay below 40 kB (three maximal DATA frames); one case in twelve goes up to 2 x 65535
+    let cap = if small { 600 } else if rng.chance(1, 12) { 140_000 } else { 40_000 };
     let nch = match rng.below(10) {
         0 => 0,
         1..=4 => 1,
@@ -628,15 +655,14 @@ fn gen_case(rng: &mut Rng) -> Case {
         let mal = malformed && (j == 0 || rng.chance(1, 3));
         streams.push(gen_stream(rng, w, mal, small, nstreams == 1));
     }
-    if small && window < 64 {
-        // bound the number of frames: at most ~400 bytes through a tiny window
-        for st in &mut streams {
-            let mut left = 400usize;
-            for e in &mut st.body {
-                if let Ev::C { len, .. } = e {
-                    *len = (*len).min(left);
-                    left -= *len;
-                }
+    // bound the number of DATA frames per stream (about 64 window-fulls) so that a case stays a
+    // small Coq term
+    for st in &mut streams {
+        let mut left = (64 * (window as usize).min(chunk_size())).max(16);
+        for e in &mut st.body {
+            if let Ev::C { len, .. } = e {
+                *len = (*len).min(left);
+                left -= *len;
             }
         }
     }
@@ -654,16 +680,22 @@ fn has_empty_chunk(case: &Case) -> bool {
     case.streams.iter().any(|st| streamed(st) && st.body.iter().take_while(|e| **e != Ev::E).any(|e| matches!(e, Ev::C { len: 0, .. })))
 }
 
-/// known class `status-304-body`: a 304 answered with a body that is streamed
-fn has_304_body(case: &Case) -> bool {
-    case.streams.iter().any(|st| st.status == 304 && streamed(st))
+/// known class `status-304-body`; mirrors `known_status_body` of coq/theories/H2/Spec.v (the two
+/// are diffed on every case through the first component of the result value)
+fn known_status_body(st: &St) -> bool {
+    let eof = st.size == "none" || (st.size == "sized" && script_total(st) == 0);
+    let s = st.status;
+    !st.head && (s == 101 || ((s == 304 || ((100..200).contains(&s) && s != 100 && s != 102)) && !eof))
+}
+fn has_known_status_body(case: &Case) -> bool {
+    case.streams.iter().any(known_status_body)
 }
 
 fn emit_case(em: &mut Emitter, id: String, case: Case) {
     let obs = run_impl(&case);
     let verdict = oracle(&case, &obs);
     let vs: Vec<V> = case.streams.iter().zip(&obs).map(|(st, o)| v_stream(st, o)).collect();
-    let v = V::L(vs);
+    let v = V::T("case", vec![V::b(has_known_status_body(&case)), V::L(vs)]);
     let coq_case = coq_list(&case.streams.iter().zip(&obs).collect::<Vec<_>>(), |(st, o)| coq_stream(&case, st, o));
     let total: usize = case.streams.iter().map(script_total).sum();
     let mut tags = vec![
@@ -717,7 +749,7 @@ fn emit_case(em: &mut Emitter, id: String, case: Case) {
         impl_show: show,
         oracle_ok: verdict.is_ok(),
         oracle_why: verdict.err().unwrap_or_default(),
-        known_class: if has_304_body(&case) { "status-304-body".into() } else if has_empty_chunk(&case) { "empty-chunk".into() } else { String::new() },
+        known_class: if has_known_status_body(&case) { "status-304-body".into() } else if has_empty_chunk(&case) { "empty-chunk".into() } else { String::new() },
         nontrivial,
         tags,
     });
@@ -732,7 +764,7 @@ fn main() {
     }
     if args.case.is_none() {
         let mut rng = Rng::new(args.seed);
-        let n = args.n.unwrap_or(if args.thorough() { 4000 } else { 400 });
+        let n = args.n.unwrap_or(if args.thorough() { 2000 } else { 220 });
         for i in 0..n {
             let mut r = rng.fork();
             let case = gen_case(&mut r);
